@@ -5,7 +5,7 @@ CM = Rec("ReadOnlyChainMap", _module="liquid2.utils.chainmap", _maps=ListOf("any
 
 contract(
     "liquid2.utils.chainmap:ReadOnlyChainMap.__getitem__",
-    props=["C10", "C07"],
+    props=["C10", "C07", "C16"],   # C16: a name bound to nil is found, not undefined
     params={"self": CM, "key": Str},
     obj_protocol="mapping",
     loops={0: {"inv": ["forall(lambda j: implies(0 <= j and j < _i, not map_has(self._maps[j], key)))"]}},
